@@ -56,6 +56,12 @@ func init() {
 	}
 }
 
+// RecordEngine routes the method-entry events of e (exported methods) to rec as "storage" events.
+func RecordEngine(e *engine.StorageEngine, rec *Recorder) { engineRecorders.Store(e, rec) }
+
+// UnrecordEngine stops recording e.
+func UnrecordEngine(e *engine.StorageEngine) { engineRecorders.Delete(e) }
+
 // Engine method classes (entry points recorded by the hook).
 var (
 	// HeaderReads are the engine methods that return header-only data (what an eACL check on the
@@ -83,8 +89,9 @@ type World struct {
 	Net   *Net
 	Srv   *objectsvc.Server
 	Put   *putsvc.Service
-	// R1 is the stored regular object of the world (attribute cls=secret).
-	R1 *object.Object
+	// R1 is the stored regular object of the world (attribute cls=secret); R2 is a second stored
+	// object (attribute cls=public) that no deny rule of the fault worlds matches.
+	R1, R2 *object.Object
 }
 
 type handlers struct {
@@ -226,11 +233,14 @@ func New(cfg Config) (*World, error) {
 		w.Close()
 		return nil, err
 	}
-	w.R1 = NewObject(w.Chain.CnrID, "cls", "secret", R1Payload)
+	w.R1 = NewObject(w.Chain.CnrID, SecretAttr, SecretVal, R1Payload)
+	w.R2 = NewObject(w.Chain.CnrID, SecretAttr, "public", []byte("public-payload-0123456789abcdef0123456789abcdef0123456789abcdef!"))
 	if cfg.LocalInContainer {
-		if err := w.Eng.Put(context.Background(), w.R1, nil); err != nil {
-			w.Close()
-			return nil, err
+		for _, o := range []*object.Object{w.R1, w.R2} {
+			if err := w.Eng.Put(context.Background(), o, nil); err != nil {
+				w.Close()
+				return nil, err
+			}
 		}
 	}
 
@@ -298,6 +308,20 @@ func (w *World) Close() {
 		_ = w.Eng.Close()
 	}
 	_ = os.RemoveAll(w.Dir)
+}
+
+// ShardState returns the sum of the shard error counters and the shard modes (sorted by shard ID),
+// without recording the inspection itself.
+func (w *World) ShardState() (errs uint32, modes []string) {
+	engineRecorders.Delete(w.Eng)
+	defer engineRecorders.Store(w.Eng, w.Rec)
+	info := w.Eng.DumpInfo()
+	for _, sh := range info.Shards {
+		errs += sh.ErrorCount
+		modes = append(modes, sh.ID.String()+"="+sh.Mode.String())
+	}
+	sort.Strings(modes)
+	return
 }
 
 // Effects returns the recorded object-data effects: engine entries ("storage"), attempts to reach
